@@ -1,5 +1,139 @@
-(* C05 - statements (work in progress) *)
-From LV Require Import Own.World.
-Theorem C05_stub : opp (opp CLt) = CLt.
+(* C05 - object protocol: dup is an independent equal copy, comp is a consistent order, type()
+   names the class.  Statements only; proofs in Own/CostProofs.v, Own/CompProofs.v,
+   Own/FrameProofs.v, Own/SpecProofs.v.  Model: Own/World.v (objects as value trees; every class
+   of the property - str, ustr, mbuff, objpair, tok, url, regexp and the nine list / vector / map
+   classes - is a constructor of [obj], nesting arbitrary).  [pcre] is the oracle "blocks left
+   allocated by pcre_compile", [ft] the flag-letter table generated from src/regexp.c. *)
+From LV Require Import Own.SpecProofs.
+Local Open Scope Z_scope.
+
+(* ---- dup: equal value, same class, for EVERY state (empty string = OStr None, empty container,
+        NULL placeholders = None items, unevaluated tokenizer = OTok _ _ None, ...) ---- *)
+Theorem C05_dup_equal : forall pcre x y, copy pcre x = Ok y -> abs y = abs x.
+Proof. exact copy_abs. Qed.
+Print Assumptions C05_dup_equal.
+
+Theorem C05_dup_same_class : forall pcre x y, copy pcre x = Ok y -> tag_of y = tag_of x.
+Proof. exact copy_tag. Qed.
+Print Assumptions C05_dup_same_class.
+
+(* the dup operation of a program: the result is bound to a new handle, it has the value and the
+   class of the original, and exactly its own footprint was allocated *)
+Theorem C05_dup_step : forall pcre ft w h x w' r,
+  get w h = Ok x -> step pcre ft w (Dup h) = Ok (w', r) ->
+  exists y, r = RNew (next w) false /\ held w' = held w ++ [(next w, y)] /\ next w' = S (next w) /\
+            abs y = abs x /\ tag_of y = tag_of x /\
+            footprint y = dup_cost pcre x /\ ledger w' = ledger w + footprint y.
+Proof. exact dup_step. Qed.
+Print Assumptions C05_dup_step.
+
+(* fresh: a handle that was not held before; everything held before is still held, unchanged *)
+Theorem C05_dup_fresh : forall pcre ft w h x w' r,
+  Good w -> get w h = Ok x -> step pcre ft w (Dup h) = Ok (w', r) ->
+  lookup (next w) (held w) = None /\
+  (forall k o, lookup k (held w) = Some o -> lookup k (held w') = Some o) /\
+  exists y, lookup (next w) (held w') = Some y /\ abs y = abs x /\ ledger w' = ledger w + footprint y.
+Proof. exact dup_fresh. Qed.
+Print Assumptions C05_dup_fresh.
+
+(* independent: whatever history follows (mutating, emptying, deleting), as long as it does not
+   name one of the two handles as the object it acts on, that handle keeps its value and stays held *)
+Theorem C05_independent : forall pcre ft w h x w1 r,
+  Good w -> get w h = Ok x -> step pcre ft w (Dup h) = Ok (w1, r) ->
+  forall p w2 outs, run pcre ft w1 p = Ok (w2, outs) ->
+    (avoids h p -> lookup h (held w2) = Some x) /\
+    (avoids (next w) p -> exists y, lookup (next w) (held w2) = Some y /\ abs y = abs x /\ tag_of y = tag_of x).
+Proof. exact dup_independent. Qed.
+Print Assumptions C05_independent.
+
+(* the general frame fact behind it: an operation changes only the handles it writes *)
+Theorem C05_frame : forall pcre ft h w op w' r,
+  step pcre ft w op = Ok (w', r) -> ~ In h (writes op) -> is_delall op = false ->
+  forall o, lookup h (held w) = Some o -> lookup h (held w') = Some o.
+Proof. exact step_keeps. Qed.
+Print Assumptions C05_frame.
+
+(* ---- comp ----
+   comp is a structural Fixpoint over the value tree (Own/World.v): Coq accepts it without fuel,
+   so it terminates on every pair of objects; the only fault it can return is Abort (type
+   confusion between classes), never Out_of_fuel. *)
+Theorem C05_comp_terminates : forall a b f, comp a b = Fault f -> f = Abort.
+Proof. exact comp_fault. Qed.
+Print Assumptions C05_comp_terminates.
+
+Theorem C05_comp_reflexive : forall o r, comp o o = Ok r -> r = CEq.
+Proof. exact comp_refl. Qed.
+Print Assumptions C05_comp_reflexive.
+
+Theorem C05_comp_antisymmetric : forall a b r r', comp a b = Ok r -> comp b a = Ok r' -> r' = opp r.
+Proof. exact comp_antisym. Qed.
+Print Assumptions C05_comp_antisymmetric.
+
+Theorem C05_comp_transitive : forall a b c r1 r2 r3,
+  comp a b = Ok r1 -> comp b c = Ok r2 -> comp a c = Ok r3 -> r1 <> CGt -> r2 <> CGt -> r3 <> CGt.
+Proof. exact comp_trans. Qed.
+Print Assumptions C05_comp_transitive.
+
+Theorem C05_comp_equal_transitive : forall a b c r3,
+  comp a b = Ok CEq -> comp b c = Ok CEq -> comp a c = Ok r3 -> r3 = CEq.
+Proof. exact comp_eq_trans. Qed.
+Print Assumptions C05_comp_equal_transitive.
+
+(* NULL is ordered before every object (and equal to NULL) *)
+Theorem C05_comp_null_first : forall x,
+  comp_opt None (Some x) = Ok CLt /\ comp_opt (Some x) None = Ok CGt /\ comp_opt None None = Ok CEq.
+Proof. intros x. exact (conj (proj1 (comp_null_below x)) (conj (proj2 (comp_null_below x)) comp_null_null)). Qed.
+Print Assumptions C05_comp_null_first.
+
+(* equal-prefix buffers of different length are not equal *)
+Theorem C05_comp_prefix_not_equal : forall a c t,
+  comp (OMbuff (Some a)) (OMbuff (Some (a ++ c :: t))) = Ok CLt /\
+  comp (OMbuff (Some (a ++ c :: t))) (OMbuff (Some a)) = Ok CGt /\
+  comp (OStr (Some a)) (OStr (Some (a ++ c :: t))) = Ok CLt.
+Proof. exact comp_prefix_not_equal. Qed.
+Print Assumptions C05_comp_prefix_not_equal.
+
+Theorem C05_comp_equal_same_bytes : forall s t, comp (OMbuff s) (OMbuff t) = Ok CEq -> text_of s = text_of t.
+Proof. exact comp_equal_same_text. Qed.
+Print Assumptions C05_comp_equal_same_bytes.
+
+(* comp is defined (no type confusion) on any two objects of one comparison type *)
+Theorem C05_comp_defined : forall t a b, has_ty t a = true -> has_ty t b = true -> exists r, comp a b = Ok r.
+Proof. exact comp_defined. Qed.
+Print Assumptions C05_comp_defined.
+
+(* ---- type ---- *)
+Theorem C05_type_names_class : forall t, class_name t = option_map bang_name (base_name t).
+Proof. exact type_names_class. Qed.
+Print Assumptions C05_type_names_class.
+
+Theorem C05_type_step : forall pcre ft w h x w' r,
+  get w h = Ok x -> step pcre ft w (TypeOf h) = Ok (w', r) -> w' = w /\ r = RType (tag_of x) /\ x <> ORaw.
+Proof. exact type_step. Qed.
+Print Assumptions C05_type_step.
+
+Theorem C05_every_class_named : forall x, x <> ORaw -> exists n, class_name (tag_of x) = Some (bang_name n).
+Proof. exact every_class_named. Qed.
+Print Assumptions C05_every_class_named.
+
+(* ---- non-vacuity ---- *)
+Definition pc (_ : option text) (_ : Z) : Z := 1.
+(* a list with NULL placeholders, a nested linked list, a key-only pair, an unevaluated tokenizer *)
+Definition ex_list : obj :=
+  OCont IList Arr 7 true [None; Some (OStr None); Some (OCont IList LL 9 false [Some (OStr (Some [97]))]);
+                           Some (OPair (Some (OStr (Some [107]))) None); Some (OTok (Some (OStr (Some [97; 32; 98]))) None None)].
+Example ex_dup_defined : exists y, copy pc ex_list = Ok y /\ abs y = abs ex_list /\ footprint y = 13.
+Proof. eexists. split; [vm_compute; reflexivity|]. split; vm_compute; reflexivity. Qed.
+Example ex_dup_empty : copy pc (OStr None) = Ok (OStr None) /\ copy pc (OCont IVector DL 3 false []) = Ok (OCont IVector DL 3 false []).
+Proof. split; reflexivity. Qed.
+Example ex_comp_arrays :
+  comp (OCont IList Arr 0 true [Some (OStr (Some [97]))]) (OCont IList Arr 1 true [Some (OStr (Some [97])); None]) = Ok CLt.
 Proof. reflexivity. Qed.
-Print Assumptions C05_stub.
+Example ex_comp_pair_key : comp (OPair None None) (OPair (Some (OStr None)) None) = Ok CLt.
+Proof. reflexivity. Qed.
+Example ex_has_ty : has_ty (TyArr (TyPair TyStr)) (OCont IMap Arr 0 true [Some (OPair (Some (OStr (Some [107]))) (Some (OStr None)))]) = true.
+Proof. reflexivity. Qed.
+Example ex_program :
+  exists w outs, run pc [] w0 [NewStr (Some [97]); Dup 0; Append 1 [98]; Del 1; Dump 0] = Ok (w, outs) /\
+                 lookup 0 (held w) = Some (OStr (Some [97])) /\ avoids 0 [Append 1 [98]; Del 1; Dump 0].
+Proof. do 2 eexists. split; [vm_compute; reflexivity|]. split; [reflexivity|]. repeat constructor; cbn; intuition discriminate. Qed.
